@@ -71,6 +71,8 @@ def check_text(text: str, surrogate: bool = False):
             got = sl.LDAPFilter.from_string(text)
     except CpuTimeout:
         obs["cpu-timeout"] = 1
+        if len(text) <= 1024:
+            out.append(("no-return-within-cpu-budget", f"from_string of a {len(text)}-character text did not return within 10 CPU-seconds: {text[:60]!r}"))
         return out, obs
     except FSE as e:
         obs["outcome:FilterSyntaxError"] = 1
@@ -151,7 +153,18 @@ def is_sentence(text):
         return False
 
 
+class StopShard(Exception):
+    pass
+
+
 def run_shard(ctx: Ctx, acc: Acc):
+    try:
+        _run_shard(ctx, acc)
+    except StopShard:
+        acc.count("shard-stopped-early-after-hangs")
+
+
+def _run_shard(ctx: Ctx, acc: Acc):
     def do(part, text, surrogate=False):
         acc.case()
         acc.count("part:" + part)
@@ -162,6 +175,10 @@ def run_shard(ctx: Ctx, acc: Acc):
             acc.nontrivial(text if len(text) < 3000 else (len(text), text[:50]))
         for key, what in vio:
             acc.violation(key, what, {"text": text if len(text) <= 5000 else None, "gen": None if len(text) <= 5000 else part, "surrogate": surrogate})
+            if key == "no-return-within-cpu-budget":
+                acc.count("no-return")
+        if acc.counters.get("no-return", 0) >= 3:
+            raise StopShard()
 
     n = ctx.scale(60_000, 1_200_000)
     for i in range(n // 3):
